@@ -25,7 +25,7 @@ def suite(wt):
     return p.stdout.strip().splitlines()[-1] if p.stdout.strip() else "no output"
 
 
-def verify(pid, mn, src="/tmp/seedout"):
+def verify(pid, mn, src="/tmp/seedout", store_as=None):
     d = os.path.join(src, pid, mn)
     patch = os.path.join(d, "patch.diff")
     demo = os.path.join(d, "demo.py")
@@ -50,12 +50,13 @@ def verify(pid, mn, src="/tmp/seedout"):
         if not ok:
             print(base_demo.stdout[-500:], base_demo.stderr[-500:], mut_demo.stdout[-300:])
             return False
-        out = os.path.join(SEEDED, f"{pid}-{mn}")
+        out = os.path.join(SEEDED, f"{pid}-{store_as or mn}")
         os.makedirs(out, exist_ok=True)
         shutil.copy(patch, out); shutil.copy(demo, out)
         notes = os.path.join(d, "notes.md")
         needs = open(notes).read() if os.path.exists(notes) else ""
-        meta = {"property": pid, "origin": "independent sub-agent given only the property text and a scratch worktree",
+        meta = {"property": pid, "origin": "independent sub-agent given only the property text and a scratch worktree"
+                          + (" (round 2, against the tree with the fix: commits)" if "seedout2" in src else ""),
                 "needs_to_manifest": needs[:3000],
                 "confirmed": {"suite_with_patch": s + " (the always-failing test_origin[type_alias_type] deselected)",
                               "demo_exit_unchanged": base_demo.returncode, "demo_exit_patched": mut_demo.returncode,
@@ -128,7 +129,8 @@ def table():
 if __name__ == "__main__":
     cmd = sys.argv[1]
     if cmd == "verify":
-        verify(sys.argv[2], sys.argv[3], *(sys.argv[5:6] if sys.argv[4:5] == ["--src"] else []))
+        opts = dict(zip(sys.argv[4::2], sys.argv[5::2]))
+        verify(sys.argv[2], sys.argv[3], src=opts.get("--src", "/tmp/seedout"), store_as=opts.get("--as"))
     elif cmd == "try":
         try_seed(sys.argv[2], sys.argv[3:])
     elif cmd == "table":
